@@ -133,6 +133,7 @@ type machine struct {
 	mapOrderFuncs  []string
 	schedNondet    bool
 	preemptBudget  int
+	wedgeLabel     string
 	panicSite      string
 	panicWhere     string
 	lastPanic      value
